@@ -1,4 +1,5 @@
 import MicroHttp.Props.C09
+import MicroHttp.Props.C10History
 #print axioms MicroHttp.C09.poll_returns
 #print axioms MicroHttp.C09.poll_ok_without_kill
 #print axioms MicroHttp.C09.all_events_handled
@@ -7,3 +8,5 @@ import MicroHttp.Props.C09
 #print axioms MicroHttp.C09.closed_and_answered_is_swept
 #print axioms MicroHttp.C09.others_unaffected
 #print axioms MicroHttp.C09.stale_out_is_harmless
+#print axioms MicroHttp.C10.respondMany_inv
+#print axioms MicroHttp.C10.history_inv
